@@ -10,7 +10,7 @@
 (***************************************************************************)
 EXTENDS Find, Json, Randomization
 
-CONSTANTS CellNames, PatNames, MaxCopies, MaxDecoys, MaxAtoms, AnchorSet, DecoySet, DecoyRots, DecoyKinds, Emit, NegativeControl, ShiftSet,
+CONSTANTS CellNames, PatNames, MaxCopies, MaxDecoys, MaxAtoms, AnchorSet, DecoySet, DecoyRots, DecoyKinds, PlantRots, Emit, NegativeControl, ShiftSet,
           Sim   \* TRUE only under -simulate: every step draws a few random candidates instead of enumerating all
 
 \* anchors: interior, the three faces, three edges, the corner, and the far corner (-1 = last lattice plane)
@@ -88,7 +88,7 @@ PlantWith(M, v, Q, kind) ==
      /\ UNCHANGED <<cell, pat, shifted>>
 
 Plant == /\ ncopies < MaxCopies /\ ndecoys = 0
-         /\ \E M \in Pick(Rot24, 3), v \in Anchors(cell) :
+         /\ \E M \in Pick(PlantRots, 3), v \in Anchors(cell) :
               /\ PlantWith(M, v, P, "Plant")
               /\ planted' = planted \cup {{Len(atoms) + i : i \in 1..Len(P)}}
          /\ ncopies' = ncopies + 1 /\ UNCHANGED ndecoys
@@ -152,8 +152,20 @@ MirrorMargin(Q) == \A i, j, k, l \in 1..Len(Q) :
    IN d # 0 => d * d * 1024 > 3 * n2
 ASSUME \A p \in PatNames : MirrorMargin(Pat(p)) /\ Diameter2(PatPos(Pat(p))) <= 60
 
+\* replacement patterns offered for a search pattern Q (used by the replace drivers): identical, one element
+\* substituted, one atom added off-axis, empty, first atom only, nothing in common
+RPVariants(Q) ==
+  LET l == Q[Len(Q)].pos
+      f == Q[1].pos
+  IN <<[name |-> "same",   atoms |-> Q],
+       [name |-> "subst",  atoms |-> [Q EXCEPT ![Len(Q)].el = "Br"]],
+       [name |-> "grow",   atoms |-> Append(Q, At("Cl", l[1] + 1, l[2] + 2, l[3] - 1))],
+       [name |-> "empty",  atoms |-> <<>>],
+       [name |-> "first",  atoms |-> <<Q[1]>>],
+       [name |-> "allnew", atoms |-> <<At("Si", f[1], f[2], f[3] + 1), At("Ge", f[1] + 1, f[2], f[3] + 2)>>]>>
+
 EmitInv == (Emit /\ Len(atoms) > 0) =>
              PrintT(<<"CRYSTAL", ToJson([cell |-> Cell(cell), cellname |-> cell, patname |-> pat, pat |-> P, atoms |-> atoms,
-                                         inside |-> AtomsInside(X),
+                                         inside |-> AtomsInside(X), rps |-> RPVariants(P),
                                          widths |-> WidthsOK(X, DiamBoundNum(P), 8), hist |-> hist])>>)
 =============================================================================
